@@ -348,8 +348,10 @@ CHECKS["C03"] = (
     "Decides that array axes, ensemble shape, partition order, rebuild keys and axis metadata of every "
     "distribution-parametrised ensemble follow one order, that axis metadata lists the distribution's own values in "
     "order, that the i-th distribution occupies axis i with aligned values and weights (weights multiplied), and "
-    "that blocks are rebuilt from zip(keys, slices) of the same dict.",
-    "That member i equals the scalar run numerically, and weighted means, are not decided.",
+    "that blocks are rebuilt from zip(keys, slices) of the same dict, that every kernel that unpacks distributions is "
+    "linear in their weights, and that sign-flipping aliases keep weights and order.",
+    "That member i equals the scalar run numerically is not decided; SpatialEnvelope discarding its weights is recorded "
+    "as a known finding.",
 )
 
 CHECKS["C25"] = (
